@@ -175,6 +175,10 @@ def magnify(rng, spec, x0, p=0.2):
         spec["b"] = np.array(spec["b"], float) + A @ s
         spec["xl"] = np.array(spec["xl"], float) + s
         spec["xu"] = np.array(spec["xu"], float) + s
+        for j in range(n):
+            # boxes that are narrow *relative to |x|* (a few 1e-9 |x| wide) but many absolute tolerances wide
+            if s[j] != 0 and np.isfinite(spec["xl"][j]) and spec["xu"][j] > spec["xl"][j] and rng.random() < 0.4:
+                spec["xu"][j] = spec["xl"][j] + float(rng.choice([0.3e-8, 0.7e-8])) * abs(spec["xl"][j])
         x0 = np.clip(x0 + s, spec["xl"], spec["xu"])
         tags.append("far")
     if tags:
